@@ -6,6 +6,7 @@ import (
 	"math/big"
 	"strings"
 	"sync"
+	"sync/atomic"
 )
 
 // Sort of an SMT term. 0 = Bool, -1 = Int, w>0 = (_ BitVec w).
@@ -92,8 +93,15 @@ func BoolConst(b bool) *Term {
 }
 
 func IntConst(v *big.Int) *Term {
+	if v.BitLen() > 62 {
+		// large constants are not hash-consed (building their keys would dominate the
+		// concrete interpretation of the iterative functions); constants are compared by value
+		return &Term{Op: "const", Sort: SInt, Val: new(big.Int).Set(v), id: int(atomic.AddInt64(&bigConstSeq, 1)) + 1<<40}
+	}
 	return intern(&Term{Op: "const", Sort: SInt, Val: new(big.Int).Set(v)})
 }
+
+var bigConstSeq int64
 func IntConst64(v int64) *Term { return IntConst(big.NewInt(v)) }
 
 func BVConst(w int, v *big.Int) *Term {
